@@ -119,7 +119,7 @@ Failed(props, cfg, S, e) ==
      ELSE Chk(props, "C12", "C12.NeverFails", ok)
      \cup Chk(props, "C12", "C12.Merges", (ok /\ OrderSafe(e.call, cfg.km)) => \A s \in same : s.kc = e.kc)
      \cup Chk(props, "C12", "C12.MergedIsHit", (ok /\ cfg.cached /\ OrderSafe(e.call, cfg.km) /\ same # {})
-                                                 => e.kind = "hit" /\ e.evals = 0)
+                                                 => e.kind \in {"hit", "load"} /\ e.evals = 0)
      \cup Chk(props, "C12", "C12.Separates", ok => \A s \in S.seen : Differ(s, e.call, r) => s.kc # e.kc)
      \cup Chk(props, "C12", "C12.SeparateIsMiss", (ok /\ cfg.cached /\ \A s \in S.seen : Differ(s, e.call, r))
                                                  => e.kind = "miss" /\ e.evals = 1)
